@@ -8,75 +8,93 @@ import sys
 HERE = os.path.dirname(os.path.dirname(os.path.abspath(__file__)))
 sys.path.insert(0, HERE)
 
+E2E = ("the real minify() evaluated by the checker's abstract interpreter on probe modules - nothing of the package replaced, the module handed to the printer "
+       "captured and, where names matter, printed by the repository's own printer (also evaluated)")
+
 TEXT = {
-    'C01': ('safe-option identity (docs index = signature defaults = CLI defaults), the fixed order of the pipeline, and producer-before-reader typestate of '
-            'every tree annotation, decided from the source of minify(); observable equivalence of the two programs is NOT decided',
-            'table agreement (docs/signature), dominance over path facts, effect summaries over the call graph'),
-    'C02': ('every (printer slot, child class) cell of the ASDL, statement layouts, token adjacencies, literal spellings and match patterns are enumerated: the '
-            'printer classes are run by the abstract interpreter on descriptor trees of probe programs and the text must parse back (CPython parser as '
-            'oracle) to the identical tree; handler/dispatch exhaustiveness over the ASDL; literal values beyond the systematic grids are NOT decided',
+    'C01': (E2E + ' with the default options in four configurations (transforms only / + renaming / + hoisting / everything): the result equals the composition of the '
+            'documented rewrites (reference implementations in the checker), is alpha-equivalent to it (scopes from symtable), de-hoists to it, and compiles; the pipeline '
+            'typestate observed on a staged real run (no stage consults a tree annotation before the stage that populates it); safe options = documented defaults; '
+            'self-check of unparse(); observable equivalence of two running programs in general is NOT decided',
+            'abstract interpretation of the whole pipeline on probe programs against reference rewrites and oracles built on ast / symtable / compile, plus table agreement (docs / signature)'),
+    'C02': ('every (printer slot, child class) cell of the ASDL, statement layouts, token adjacencies, literal spellings (incl. equal-valued literals of different type '
+            'next to each other) and match patterns are enumerated: the printer classes are run by the abstract interpreter on descriptor trees of probe programs and '
+            'the text must parse back (CPython parser as oracle) to the identical tree; handler/dispatch exhaustiveness over the ASDL; literal values beyond the '
+            'systematic grids are NOT decided',
             'finite-domain enumeration by abstract interpretation of the printer + parser oracle + exhaustiveness over the ASDL'),
-    'C03': ('namespace of every syntactic slot and the binding scope of every name (mapper, binder, resolver run abstractly on probe programs) vs symtable; every '
-            'binding form bound, renamed, costed and printed from the same field (the printer is run on renamed probes); reservation discipline of the '
-            'assignment loop; filtered name stream; the reservation algorithm beyond its invariants is NOT decided',
-            'abstract interpretation of mapper/binder/resolver/printer on probe programs + symtable oracle + path facts'),
-    'C04': ('Binding.rename evaluated on a reference node of every ASDL class with an identifier field: external fields unchanged, keyword-callable parameters keep '
-            'their spelling; pins on all paths that hand out a binding (enumerated); arg_rename_in_place over 1240 argument shapes; the name-assignment loop '
-            'evaluated on 48 scenarios: underscore prefix exactly under prefix_globals; who-may-write rule on identifier fields; leakage through data is NOT decided',
-            'abstract interpretation of the renamer over enumerated reference kinds and scenarios + ownership rule over stores'),
-    'C05': ('minify() itself is evaluated with every stage replaced by a recorder: each rewriting stage runs exactly under its own option; every transformer is '
-            'abstractly run on enumerated statement lists / test shapes / nesting shapes and must remove exactly the documented construct; unconditional stages '
-            'are annotation-only (effect summaries); bisimilarity of compiled code is NOT decided',
-            'abstract interpretation of the driver and of each transformer over finite syntactic domains + effect summaries + ASDL exhaustiveness'),
-    'C06': ('insertion point guards, type-aware key, value-node identity, exclusion sites, placement namespaces, candidate kinds; alias uniqueness is NOT decided',
-            'path facts, provenance of constructed nodes, abstract enumeration of insert() over suite shapes'),
-    'C07': ('the folding transform is run abstractly on every operand-kind pair x operator and on nested forms, the folded module is printed by the repository\'s '
-            'printer (abstractly) and parsed back: identical type/value/exception, strictly shorter, integer division and failing evaluations left alone; '
-            'equal_value_and_type enumerated over exemplar pairs; operand values beyond the enumerated kinds are NOT decided',
-            'finite-domain enumeration by abstract interpretation of the transform and the printer, evaluated against the interpreter\'s own arithmetic on literal-only trees'),
-    'C08': ('handler and dispatch exhaustiveness over the ASDL, SyntaxError pass-through, error discipline at fallible evaluation sites (f-string candidates by path '
-            'facts, folding by enumeration of failing arithmetic), reduced printer cells incl. huge integers; absence of implicit exceptions in general is NOT decided',
-            'exhaustiveness over the ASDL + path facts (try coverage) + the C02/C07 enumerations re-reported'),
-    'C09': ('trigger positions (whole bind+resolve run on probe programs), and under the hypothesis "module tainted" no name-changing stage is reachable with '
-            'permission; gates evaluated with the switch off; taint writes monotone, reads dominated by resolution',
-            'abstract interpretation on probe programs + path facts under hypothesis + effect summaries'),
-    'C10': ('minify() evaluated with recorders: the three consumers receive the caller\'s names (None / str / list / tuple spellings) plus the binder-preserved names, '
-            'the caller\'s list is untouched; membership implies pin (gates evaluated); reserved globals; __all__ forms; AWS entrypoint; "nothing else changes" is NOT decided',
-            'abstract interpretation of the driver and the gates over enumerated argument spellings + path facts'),
-    'C11': ('no in-place mutation of any caller argument (followed through callee summaries), no write to module/class level state from reachable code, '
-            'set-typed values consumed only order-insensitively, no nondeterminism source reachable; true thread interleavings beyond absence of shared writable '
-            'state are NOT decided',
-            'effect (purity) summaries over the receiver-sensitive call graph'),
-    'C12': ('inventory and reachability of every dynamic-execution sink; what reaches each eval() is decided by running the quoting classes on crafted strings and the '
-            'folding transform on arithmetic over every operand kind (only closed literal text may arrive); wrapper passes fresh empty namespaces; no I/O outside the '
-            'CLI module; dynamic attribute names derive from literals / class names / field names; escaping for every string is NOT decided',
+    'C03': (E2E + ' with the renaming options: every binding form of the grammar (exhaustive over the ASDL identifier fields), scope-heavy probes, names bound nowhere that '
+            'look like generated names, idioms with one name in several scopes - same structure, consistent new names, no two bindings of one name meet, no free '
+            'reference captured, no reference left unbound (symtable as oracle). White-box (optional): namespace of every syntactic slot and binding scope of every name '
+            'vs symtable, reservation worlds, the generated name stream; the reservation algorithm on arbitrary programs is NOT decided',
+            'abstract interpretation of the whole pipeline on probe programs + alpha-equivalence / capture oracle on symtable; abstract interpretation of mapper, binder, resolver, assigner on synthetic worlds'),
+    'C04': (E2E + ' with both renaming options: class attributes, system names, names bound nowhere, roots of dotted imports, lambda parameters, super keep their spelling; '
+            'every function kind x signature shape: keyword-callable parameters keep their spelling in the signature; names the hoister adds at module level carry the '
+            'underscore; who-may-write rule on ASDL identifier fields. White-box (optional): pins inspected on bindings, forced renames per parameter kind, the assignment '
+            'loop on 64 scenarios; leakage through data is NOT decided',
+            'abstract interpretation of the whole pipeline on probe programs + ownership rule over stores + abstract interpretation of the renamer on enumerated worlds'),
+    'C05': (E2E + ' with every option off (tree unchanged) and with exactly one option on: the result equals that option\'s documented rewrite, implemented independently in the '
+            'checker - statement filters in every kind of statement list of the grammar, __debug__ tests, docstrings vs __doc__, exception brackets for every builtin name, '
+            'annotation removal by option set x scope kind x nesting, return None, object bases, import merging, positional-only markers; stage gating by recorders; '
+            'unconditional stages annotation-only; bisimilarity of compiled code in general is NOT decided',
+            'abstract interpretation of the whole pipeline on probe programs against reference rewrites + effect summaries'),
+    'C06': (E2E + ' with only hoist_literals on, then de-hoisted by the checker: putting the aliased constants back gives the original program; each alias assigned once, at the top of a '
+            'function / module body that encloses every use (defaults and decorators belong to the enclosing scope), resolves to the alias at every use, module-level aliases '
+            'start with an underscore; __slots__, match patterns, f-string text, docstrings untouched. White-box (optional): insert() positions, key equality, collector '
+            'exclusions, placement on scope trees; alias uniqueness in general is NOT decided',
+            'abstract interpretation of the whole pipeline on probe programs + de-hoisting oracle; abstract enumeration of the hoister\'s helpers'),
+    'C07': ('the real minify() with only constant_folding on, evaluated on every operand-kind pair x operator (17 operand kinds incl. complex) and on nested / chained / '
+            'free-operand forms; the folded module is printed by the repository\'s printer and parsed back: identical type, value (incl. signed zeros) or exception, '
+            'strictly shorter; operand values beyond the enumerated kinds are NOT decided',
+            'finite-domain enumeration by abstract interpretation of the pipeline and the printer, judged by the interpreter\'s own arithmetic on literal-only trees'),
+    'C08': ('handler and dispatch exhaustiveness over the ASDL, SyntaxError pass-through (driver evaluated with a failing parse), folding of failing arithmetic by enumeration, '
+            'printer cells (parenthesisation-sensitive slots, statement pairs in function bodies and nested blocks, literals incl. huge integers, patterns) print without '
+            'error and re-parse; absence of implicit exceptions in general is NOT decided',
+            'exhaustiveness over the ASDL + abstract interpretation of driver, folder and printer over enumerated cells'),
+    'C09': (E2E + ' with renaming and hoisting requested on modules with a dynamic-name trigger in 20 positions (incl. nested classes that bind the trigger\'s name): the output is '
+            'identical to the one with those options off; controls without a trigger are renamed; driver evaluated with recorders for a tainted module: gates receive False, no '
+            'bracket removal; taint writes monotone. White-box (optional): the taint flag after bind + resolve; the gates on a scope tree',
+            'abstract interpretation of the whole pipeline on probe programs + abstract interpretation of the driver with recorders'),
+    'C10': (E2E + ' with preserve lists and literal __all__ in every statement form: the listed names keep their spelling, everything else is still renamed; the driver evaluated '
+            'with recorders: the three consumers receive the caller\'s names (None / str / list / tuple spellings) plus the binder-preserved names, the caller\'s list is '
+            'untouched; command line route; AWS entrypoint. White-box (optional): gates and reservation worlds',
+            'abstract interpretation of the whole pipeline and of the driver over enumerated argument spellings'),
+    'C11': ('no in-place mutation of any caller argument (followed through callee summaries), no write to module/class level state from reachable code, no mutable object created '
+            'at module level leaves its name (stored, returned, passed on, advanced, mutated - followed into callees), set-typed values consumed only order-insensitively, no '
+            'nondeterminism source reachable; true thread interleavings beyond absence of shared writable state are NOT decided',
+            'effect (purity / escape) summaries over the receiver-sensitive call graph'),
+    'C12': ('inventory and reachability of every dynamic-execution sink; what reaches each eval() is decided by running the quoting classes on crafted strings (quote runs, '
+            'backslash-quote, comment / operator tails) and the real pipeline with constant_folding on arithmetic over every operand kind (only closed literal text may '
+            'arrive); no I/O outside the CLI module; dynamic attribute names derive from literals / class names / field names; escaping for every string is NOT decided',
             'who-may-call rule + abstract interpretation of the code in front of each sink on crafted inputs + derivation dataflow for dynamic attribute names'),
-    'C13': ('main() evaluated end to end in a modelled environment (real argparse driven by the repository\'s calls; file system, stdio, environment and minify() answered '
-            'by the checker): flags -> keyword arguments (none, each alone, annotation vectors, list spellings; thorough: all pairs), 112 validation shapes, output '
-            'modes x per-source answers: payloads, channels, listing; documented flags exist; flag subsets larger than pairs are NOT decided',
+    'C13': ('main() evaluated end to end in a modelled environment (real argparse driven by the repository\'s calls; file system incl. scandir / walk, stdio as objects, environment '
+            'and minify() answered by the checker): flags -> keyword arguments (none, each alone, annotation vectors, list spellings; thorough: all pairs), 112 validation '
+            'shapes, output modes x per-source answers (also byte-identical files): payloads, size rule, channels, listing; documented flags exist; flag subsets larger than '
+            'pairs are NOT decided',
             'abstract interpretation of the entry point over enumerated scenarios, compared with the documented behaviour'),
-    'C14': ('main() evaluated end to end over output modes x answers that are shorter / longer / longer only in bytes / equal, mixed along the file list, with and without '
-            'the override, plus 42 boundary length cases: every destination receives at most len(source) bytes; only environment read is the override',
+    'C14': ('main() evaluated end to end over output modes x answers that are shorter / longer / longer only in bytes / equal, mixed along the file list and on byte-identical files, '
+            'with and without the override, plus boundary length cases: every destination receives at most len(source) bytes; only environment read is the override',
             'abstract interpretation of the entry point over enumerated scenarios + syntactic scan for environment reads'),
-    'C15': ('main() evaluated end to end on a modelled directory tree (python and near-miss suffixes, nested and symlinked directories): selection, destinations, binary '
-            'channels, destination opened only after minify() returned, failing / unreadable file or unlistable directory ends the run and later files are untouched; '
+    'C15': ('main() evaluated end to end on a modelled directory tree (python and near-miss suffixes, nested and symlinked directories, byte-identical files): selection, destinations, '
+            'binary channels, destination opened only after minify() returned, failing / unreadable file or unlistable directory ends the run and later files are untouched; '
             'no other file-system mutation in the package; atomicity of the final write is NOT decided',
             'abstract interpretation of the entry point over enumerated scenarios + syntactic scan for file-system mutators'),
-    'C16': ('source reaches the interpreter\'s parser untouched (API by provenance, CLI by end-to-end evaluation on BOM / CR / cookie / undecodable sources), strict UTF-8 '
-            'of what is written, shebang finder evaluated on 16 source shapes for text and bytes, literal emitters evaluated on crafted values, every decode of '
-            'input-derived bytes total or declared; meaning preservation per codec is NOT decided',
-            'provenance flow + abstract interpretation of the shebang finder, the literal emitters and the entry point on crafted inputs'),
-    'C17': ('the three constant-kind classifiers agree on exemplar values of every type; the name-assignment loop evaluated on 48 scenarios renames exactly under the '
-            'profitability answer (or when the original name was given away); cost comparisons point the right way; folds kept only where the printed text gets '
-            'strictly shorter (enumerated with C07); descending mention order; aggregate accuracy of the cost model on real code is NOT decided',
-            'abstract enumeration of classifiers, assignment loop and folding + comparison-direction analysis'),
+    'C16': ('source reaches the interpreter\'s parser untouched (API driver and CLI evaluated on BOM / CR / cookie / undecodable sources), strict UTF-8 of what is written, shebang '
+            'handling evaluated through minify() on enumerated first lines for text and bytes, literal emitters evaluated on crafted values; meaning preservation per codec is NOT decided',
+            'abstract interpretation of the driver, the shebang finder, the literal emitters and the entry point on crafted inputs'),
+    'C17': (E2E + ' twice per (probe, size option): the printed module with the option on is never longer than with it off (every other option off; thorough: also at defaults); '
+            'folds kept only where strictly shorter (enumerated with C07). White-box (optional): cost model vs printed size over reference forms x name lengths x use counts, '
+            'hoisting cost, the assignment loop on 64 scenarios, classifier agreement, processing order; aggregate accuracy of the cost model on real code is NOT decided',
+            'abstract interpretation of the whole pipeline and printer on probe programs + abstract enumeration of cost functions and assignment loop'),
 }
 
 DESIGN_REF = {p: 'DESIGN.md section 4, ' + p for p in TEXT}
 
 NOTE = ('Trusted base: CPython\'s ast/tokenize/symtable/argparse as reference tables; the analyser itself (pmstatic); hand-written probe templates and the '
-        'classification of ASDL identifier fields. A pass means every structural obligation (a necessary condition of the property) is discharged on the '
-        'current tree - not that the behavioural property is proved. Reference grammar is the interpreter running the check (CPython 3.12).')
+        'classification of ASDL identifier fields, reference rewrites and oracles (alpha-equivalence, de-hoisting) written in the checker. A pass means every obligation '
+        '(a necessary condition of the property, decided on a finite domain of probe programs / scenarios / cells) is discharged on the current tree - not that the '
+        'behavioural property is proved. No code of the repository is run by CPython: it is evaluated by the checker\'s own interpreter over its syntax tree. '
+        'White-box rules written against internal names are reported as not evaluated (evidence: not_evaluated) when those names no longer exist; the end-to-end '
+        'rules, anchored on minify / unparse / main and the documented options only, always run. Reference grammar is the interpreter running the check (CPython 3.12).')
 
 
 def main():
@@ -114,7 +132,7 @@ def main():
         },
         'engines': [{'name': 'pmstatic', 'path': 'pmstatic/', 'serves_properties': built,
                      'kind_free_text': 'repository-specific static analyser: source model + receiver-sensitive call graph + path-fact (must) analysis + effect summaries '
-                                       '+ abstract interpreter over AST-class descriptors, probe programs and modelled environments (CLI, API driver) + interpreter-derived oracles (ASDL, parser, tokenizer, symtable, argparse)'}],
+                                       '+ abstract interpreter over AST-class descriptors, probe programs and modelled environments (CLI, API driver, whole pipeline) + interpreter-derived oracles (ASDL, parser, tokenizer, symtable, argparse, compile) + reference rewrites'}],
         'checks': checks,
         'not_applicable': [{'property_id': p, 'reason': 'check not built yet in this session (static rules are specified in DESIGN.md section 4)'} for p in not_built],
         'notes': 'All checks are static: they parse /repo/src/python_minifier on every run and never import or execute it. Exit 0 = obligations discharged / known finding, '
